@@ -81,8 +81,11 @@ func runC13(w *World) {
 		return w.Net.DialIn(lisFor(dst), x.h.Site, src, dst)
 	}
 	// ---- put the target peer into a phase ----
-	phases := []string{"idle", "out-pending", "out-opensent", "out-openconfirm", "in-opensent", "in-openconfirm", "established-in", "established-out", "held-down", "deleted", "deleting"}
+	phases := []string{"idle", "out-pending", "out-opensent", "out-openconfirm", "in-opensent", "in-openconfirm", "established-in", "established-out", "held-down", "deleted", "deleting", "burst"}
 	phase := phases[w.Draw(len(phases), "phase")]
+	if phase == "burst" && p.Spec.LocalAddr != "" {
+		// keep the burst on the configured destination
+	}
 	if p.Spec.Passive && (phase == "out-pending" || phase == "out-opensent" || phase == "out-openconfirm" || phase == "established-out") {
 		phase = "idle"
 	}
@@ -132,6 +135,41 @@ func runC13(w *World) {
 		p.Plug.MarkStopped(w.Seq())
 		p.Added = false
 	}
+	if phase == "burst" {
+		// several connections from the same configured peer arrive back to back
+		// (no quiescent point between them): exactly one is served, every other
+		// one is closed with zero bytes - none may be left dangling
+		n := 2 + w.Draw(2, "nburst")
+		var cs []*Conn
+		for i := 0; i < n; i++ {
+			cs = append(cs, dialIn(tp, p.Spec.RemoteIP, dstFor(tp)))
+			if w.Draw(2, "burstyield") == 1 {
+				w.Yield("c13.burst")
+			}
+		}
+		w.Quiesce()
+		w.NonTrivial = true
+		w.Probe("phase:burst")
+		served, desc := 0, ""
+		for _, c := range cs {
+			fs := c.AllFrames()
+			desc += fmt.Sprintf("%s closed=%v %s; ", c, c.LocalClosed(), descFrames(fs))
+			switch {
+			case len(fs) == 1 && fs[0].Type == MsgOpen && !c.LocalClosed():
+				served++
+			case c.OutLen() == 0 && c.LocalClosed():
+			default:
+				w.Violate("C13/burst/neither-served-nor-closed", "%d connections from one peer arrived back to back; afterwards: %s", n, desc)
+				return
+			}
+		}
+		w.Rel(fmt.Sprintf("burst|%d|%d", n, served))
+		if served != 1 {
+			w.Violate("C13/burst/served-count", "%d connections from one idle configured peer arrived back to back and %d were served (want exactly 1): %s", n, served, desc)
+			return
+		}
+		phase = "in-opensent"
+	}
 	if phase == "deleting" {
 		// DeletePeer races with the arrival of a connection from that peer: whatever
 		// the order, once DeletePeer has returned and things settled the connection
@@ -171,7 +209,7 @@ func runC13(w *World) {
 	// ---- probes ----
 	nprobe := 1 + w.Draw(3, "nprobes")
 	for i := 0; i < nprobe && !w.Failed(); i++ {
-		srcClass := Pick(w, "src", "target", "target", "target", "other-peer", "unconfigured", "unconfigured-v6", "v4-mapped")
+		srcClass := Pick(w, "src", "target", "target", "target", "other-peer", "unconfigured", "unconfigured-v6")
 		var src string
 		var owner *c13peer
 		switch srcClass {
@@ -187,8 +225,6 @@ func runC13(w *World) {
 			src = "10.9.9.9"
 		case "unconfigured-v6":
 			src = "fd00:9::9"
-		case "v4-mapped":
-			src = "::ffff:10.0.1.1"
 		}
 		v6src := len(src) > 2 && (src[:2] == "fd" || src[:2] == "::")
 		var dst string
